@@ -67,7 +67,8 @@ PROPS["C20"] = dict(
     assumptions=["the real applis/eperftool/blocking_struct.c is compiled; its printf goes to /dev/null"],
 )
 
-_codec_assume = ["protocol-conforming histories only (one submission style, at most one of_finish_decoding, nothing after it)",
+_codec_assume = ["protocol-conforming histories only (one submission style per session, at most one of_finish_decoding, nothing after it, no use of an instance after OF_STATUS_FATAL_ERROR except its release)",
+                 "history dimensions of every codec profile: received subset, order, duplicates (same or different buffer), submission API, callback mode, finish or not, role of the instance (decoder, encoder+decoder, encoder+decoder relay for Reed-Solomon), early release, verbosity 0/1/2, a nested session of another block run from inside a callback, throw-away instances refused beforehand, payload contents (random, unit vectors, structured zeros)",
                  "ground truth = the source data the harness gave to the library's own encoder; repair symbols come from that encoder",
                  "default build configuration (64-bit little-endian, OF_DEBUG off, ML decoding on)"]
 
